@@ -9,7 +9,14 @@
      wait_log s ops         one pair (t_call, t_return) per wait()
      grid t0 p k            t0 + k*p, the k-th grid point
      final s ops            object and clock after the operations
-     Free                   free(), leaving the with-block, or __del__
+     Free                   free(), or __del__
+     Exit exc               __exit__ of the with-statement; exc = the exception
+                            that leaves the block (None: there is none)
+     leave_with h           Exit, for the way h the block is left: EndOfBlock,
+                            BreakOut, ReturnOut, Raised e (any exception class)
+     is_free o              o is Free or any Exit: must release the notifier
+     exit_log s ops         one bool per __exit__: an exception comes out of
+                            the with-statement
    The i-th record of a log (from 0) is the (i+1)-th wait.
 
    The HAL notifier is the function [hal_wait]: a wait issued at t_call with
@@ -103,20 +110,54 @@ Proof.
            catch_up_bound p t0 bs delta j recj Hd Hj m reck Hk Hb).
 Qed.
 
-(* After free() (or leaving the with-block, or __del__), whatever happened
-   before and whatever happens after -- further waits, bodies, repeated
-   free()/with-exit: every wait returns at the instant it is called, the HAL
-   holds no alarm, and the handle has been released exactly once. *)
-Theorem C16_freed : forall p t0 pre post,
-  let s := final (create p t0, t0) (pre ++ [Free]) in
+(* After free() -- or __del__, or __exit__ of the with-statement with or
+   without an exception: [rel] is ANY of them --, whatever happened before and
+   whatever happens after -- further waits, bodies, repeated free()/with-exit:
+   every wait returns at the instant it is called, the HAL holds no alarm, and
+   the handle has been released exactly once. *)
+Theorem C16_freed : forall p t0 pre rel post,
+  is_free rel = true ->
+  let s := final (create p t0, t0) (pre ++ [rel]) in
   (forall c r, In (c, r) (wait_log s post) -> r = c) /\
   live (fst (final s post)) = false /\
   alarm (fst (final s post)) = None /\
   released (fst (final s post)) = 1%nat.
 Proof. exact freed. Qed.
 
-(* For every operation list: the handle is released once if free() occurs at
-   all and never otherwise; the object is live exactly until the first free. *)
+(* `with NotifierDelay(..) as d: block`, for ANY block (any bodies and waits,
+   also free() inside it), left in ANY way h -- the block ends, break, return,
+   or an exception of any class raised in the block --, followed by ANY further
+   use [post] of the object:
+   (1) when the statement is left the object has dropped the handle, the
+       notifier is stopped (no alarm), the handle has been released exactly
+       once, and __exit__ took no FPGA time;
+   (2) every later wait() returns at the instant it is called;
+   (3) it stays so (never re-armed, never released a second time);
+   (4) the clock afterwards moves by the bodies only (no wait blocks);
+   (5) this __exit__ lets an exception out exactly when the block raised one
+       (it does not swallow it). *)
+Theorem C16_with_block : forall p t0 block h post,
+  let s0 := (create p t0, t0) in
+  let s := final s0 (block ++ [leave_with h]) in
+  (live (fst s) = false /\ alarm (fst s) = None /\ released (fst s) = 1%nat /\
+   snd s = snd (final s0 block)) /\
+  (forall c r, In (c, r) (wait_log s post) -> r = c) /\
+  (live (fst (final s post)) = false /\ alarm (fst (final s post)) = None /\
+   released (fst (final s post)) = 1%nat) /\
+  snd (final s post) = snd s + bodies post /\
+  exit_log s0 (block ++ [leave_with h]) =
+    exit_log s0 block ++ [match h with Raised _ => true | _ => false end].
+Proof. exact with_block. Qed.
+
+(* For every operation list and every state: the i-th __exit__ lets an
+   exception out of the with-statement iff it received one. *)
+Theorem C16_exit_never_swallows : forall ops s,
+  exit_log s ops = map is_raised (exit_infos ops).
+Proof. exact exit_log_spec. Qed.
+
+(* For every operation list: the handle is released once if free() or an
+   __exit__ (with or without exception) occurs at all and never otherwise; the
+   object is live exactly until the first of them. *)
 Theorem C16_released_once : forall p t0 ops,
   let d := fst (final (create p t0, t0) ops) in
   released d = (if existsb is_free ops then 1 else 0)%nat /\
@@ -164,10 +205,24 @@ Proof. vm_compute. repeat split; intro; discriminate. Qed.
 (* free twice, then leave the with-block, with waits in between *)
 Example C16_nv_freed :
   let s0 := (create 20000 500000, 500000) in
-  wait_log s0 ([Body 1000; Wait; Body 3000; Free; Wait; Free; Body 7000; Wait; Free])
+  wait_log s0 ([Body 1000; Wait; Body 3000; Free; Wait; Free; Body 7000; Wait; Exit None])
   = [(501000, 520000); (523000, 523000); (530000, 530000)] /\
-  released (fst (final s0 [Body 1000; Wait; Body 3000; Free; Wait; Free; Body 7000; Wait; Free])) = 1%nat.
+  released (fst (final s0 [Body 1000; Wait; Body 3000; Free; Wait; Free; Body 7000; Wait; Exit None])) = 1%nat.
 Proof. vm_compute. split; reflexivity. Qed.
+
+(* a with-block of two iterations left by KeyboardInterrupt while the next
+   alarm (t0 + 3*20 ms) is still 15 ms away; a wait 1 ms later returns at once
+   (had the notifier stayed armed it would have blocked until 560000), the
+   later explicit free() releases nothing more, the exception came out *)
+Example C16_nv_with_block :
+  let s0 := (create 20000 500000, 500000) in
+  let ops := [Body 5000; Wait; Body 20000; Wait; Body 5000] ++ [leave_with (Raised KeyboardInt)]
+             ++ [Body 1000; Wait; Free; Wait] in
+  wait_log s0 ops = [(505000, 520000); (540000, 540000); (546000, 546000); (546000, 546000)] /\
+  snaps s0 ops = [(520000, Some 540000, 0%nat); (540000, Some 560000, 0%nat); (545000, None, 1%nat);
+                  (546000, None, 1%nat); (546000, None, 1%nat); (546000, None, 1%nat)] /\
+  exit_log s0 ops = [true].
+Proof. vm_compute. repeat split; reflexivity. Qed.
 
 (* the double nearest to 0.001001 s is 4616297704445815 / 2^62, just BELOW
    1001 us: it is within half a microsecond of 1001, rounds to 1001, and the
@@ -192,6 +247,8 @@ Print Assumptions C16_catches_up.
 Print Assumptions C16_lateness_step.
 Print Assumptions C16_catch_up_bound.
 Print Assumptions C16_freed.
+Print Assumptions C16_with_block.
+Print Assumptions C16_exit_never_swallows.
 Print Assumptions C16_released_once.
 Print Assumptions C16_period_whole_us.
 Print Assumptions C16_constructor.
